@@ -43,11 +43,15 @@ func (b *Bus) SendTo(ctx context.Context, targets Targets, event any) (ok bool) 
 	needGc := false
 
 	// send the event to each listener that's not closed
-	for _, l := range listeners {
+	for i, l := range listeners {
 		verifAt("send.each", b, l)
 		ok, active := l.send(ctx, event)
 		verifAt("send.each.done", b, l, ok, active)
 		if !ok {
+			// out of time on this listener: the ones not served yet still get the event if they are ready for it
+			for _, rest := range listeners[i+1:] {
+				rest.trySend(event)
+			}
 			return false
 		}
 		if !active {
@@ -126,6 +130,21 @@ func (l *listener) send(ctx context.Context, event any) (ok bool, active bool) {
 	case l.ch <- event:
 		// event sent successfully
 		return true, true
+	}
+}
+
+// trySend hands event to the listener only if that needs no waiting.
+func (l *listener) trySend(event any) {
+	l.m.RLock()
+	defer l.m.RUnlock()
+
+	select {
+	case <-l.ctx.Done():
+	default:
+		select {
+		case l.ch <- event:
+		default:
+		}
 	}
 }
 
